@@ -77,7 +77,8 @@ def gen(rng, i, tier):
         # megawatt-class systems: reported quantities exceed the DEFAULT limits (1e6), so components without any
         # configured limit must warn too
         spec = G.scale_currents(spec, 10 ** rng.uniform(4, 7))
-    return {"spec": spec, "lseed": rng.randrange(1 << 30), "ta": rng.choice([25.0, -10.0, 85.0])}
+    return {"spec": spec, "lseed": rng.randrange(1 << 30), "ta": rng.choice([25.0, -10.0, 85.0]),
+            "history": rng.choice(_rows.HISTORIES), "hseed": rng.randrange(1 << 30)}
 
 
 def directed():
@@ -165,9 +166,7 @@ def run(ctx, case):
     if st != "ok":
         return
     spec, plan = choose_limits(rng, base, df0, ta)
-    st, sysobj = H.try_build(spec)
-    if st != "ok":
-        raise RuntimeError("spec with limits rejected: %s" % H.exc_sig(sysobj))
+    spec, sysobj = _rows.build_with_history(ctx, spec, case.get("history", "fresh"), case.get("hseed", 0))
     st, df = H.solve(sysobj, ta=ta)
     if st != "ok":
         raise RuntimeError("second solve raised although the first returned: %s" % H.exc_sig(df))
